@@ -45,6 +45,8 @@ static qb_ipcs_service_t *SV;
 static char svc_name[64];
 static int W_free_choices;                                 /* harness: relative speed of the parties is an explorer choice right now */
 static int W_small_bufs;                                   /* environment: minimum stream socket buffers */
+static void (*W_fs_hook)(const char *call);                /* harness: called after every wrapped file-system call */
+static struct { int set; uid_t uid; gid_t gid; } W_cred[VP_MAXCO + 1];   /* a party runs under its own real+effective ids */
 
 static int W_stop_server;                                  /* harness: the server loop shall stop at its next iteration boundary */
 static void (*W_on_death)(int co);                         /* harness: closes the descriptors of a party that died */
@@ -63,7 +65,7 @@ int __real_kill(pid_t p, int s);
 static void w_reset(void)
 {
 	W_now = W_BASE; W_epoch = 0;
-	memset(WT, 0, sizeof WT); memset(W_dead, 0, sizeof W_dead); memset(W_calls, 0, sizeof W_calls); memset(W_kill_at, 0, sizeof W_kill_at);
+	memset(WT, 0, sizeof WT); memset(W_dead, 0, sizeof W_dead); memset(W_calls, 0, sizeof W_calls); memset(W_kill_at, 0, sizeof W_kill_at); memset(W_cred, 0, sizeof W_cred); W_fs_hook = NULL;
 	W_server_co = -1; W_dead_server_pid = 0; W_stop_server = 0; W_free_choices = 0; W_small_bufs = 0;
 }
 
@@ -122,7 +124,16 @@ static int w_idle(void)
 	W_epoch++;
 	return 1;
 }
-static void w_switch(int from, int to) { (void)from; (void)to; W_epoch++; }
+#include <sys/syscall.h>
+static void w_switch(int from, int to)
+{
+	(void)from;
+	W_epoch++;
+	/* the kernel attaches the REAL ids to SO_PASSCRED messages and checks the EFFECTIVE ones on files: switch both
+	   for this thread only (raw syscalls), the saved ids stay 0 so that the way back is open */
+	syscall(SYS_setresuid, 0, 0, -1); syscall(SYS_setresgid, 0, 0, -1);
+	if (to >= 0 && W_cred[to].set) { syscall(SYS_setresgid, W_cred[to].gid, W_cred[to].gid, -1); syscall(SYS_setresuid, W_cred[to].uid, W_cred[to].uid, -1); }
+}
 
 static void w_wait(struct waiter *tmpl, const char *what)
 {
@@ -312,28 +323,28 @@ int __wrap_connect(int fd, const struct sockaddr *a, socklen_t l);
 int __wrap_connect(int fd, const struct sockaddr *a, socklen_t l) { w_call("connect"); return __real_connect(fd, a, l); }
 int __real_bind(int fd, const struct sockaddr *a, socklen_t l);
 int __wrap_bind(int fd, const struct sockaddr *a, socklen_t l);
-int __wrap_bind(int fd, const struct sockaddr *a, socklen_t l) { w_call("bind"); return __real_bind(fd, a, l); }
+int __wrap_bind(int fd, const struct sockaddr *a, socklen_t l) { int r_; w_call("bind"); r_ = __real_bind(fd, a, l); if (W_fs_hook) W_fs_hook("bind"); return r_; }
 int __real_shutdown(int fd, int how);
 int __wrap_shutdown(int fd, int how);
 int __wrap_shutdown(int fd, int how) { w_call("shutdown"); return __real_shutdown(fd, how); }
 int __real_unlink(const char *p);
 int __wrap_unlink(const char *p);
-int __wrap_unlink(const char *p) { w_call("unlink"); return __real_unlink(p); }
+int __wrap_unlink(const char *p) { int r_; w_call("unlink"); r_ = __real_unlink(p); if (W_fs_hook) W_fs_hook("unlink"); return r_; }
 int __real_rmdir(const char *p);
 int __wrap_rmdir(const char *p);
-int __wrap_rmdir(const char *p) { w_call("rmdir"); return __real_rmdir(p); }
+int __wrap_rmdir(const char *p) { int r_; w_call("rmdir"); r_ = __real_rmdir(p); if (W_fs_hook) W_fs_hook("rmdir"); return r_; }
 char *__real_mkdtemp(char *t);
 char *__wrap_mkdtemp(char *t);
-char *__wrap_mkdtemp(char *t) { w_call("mkdtemp"); return __real_mkdtemp(t); }
+char *__wrap_mkdtemp(char *t) { char *r_; w_call("mkdtemp"); r_ = __real_mkdtemp(t); if (W_fs_hook) W_fs_hook("mkdtemp"); return r_; }
 int __real_ftruncate(int fd, off_t l);
 int __wrap_ftruncate(int fd, off_t l);
-int __wrap_ftruncate(int fd, off_t l) { w_call("ftruncate"); return __real_ftruncate(fd, l); }
+int __wrap_ftruncate(int fd, off_t l) { int r_; w_call("ftruncate"); r_ = __real_ftruncate(fd, l); if (W_fs_hook) W_fs_hook("ftruncate"); return r_; }
 int __real_chmod(const char *p, mode_t m);
 int __wrap_chmod(const char *p, mode_t m);
-int __wrap_chmod(const char *p, mode_t m) { w_call("chmod"); return __real_chmod(p, m); }
+int __wrap_chmod(const char *p, mode_t m) { int r_; w_call("chmod"); r_ = __real_chmod(p, m); if (W_fs_hook) W_fs_hook("chmod"); return r_; }
 int __real_chown(const char *p, uid_t u, gid_t g);
 int __wrap_chown(const char *p, uid_t u, gid_t g);
-int __wrap_chown(const char *p, uid_t u, gid_t g) { w_call("chown"); return __real_chown(p, u, g); }
+int __wrap_chown(const char *p, uid_t u, gid_t g) { int r_; w_call("chown"); r_ = __real_chown(p, u, g); if (W_fs_hook) W_fs_hook("chown"); return r_; }
 int __real_munmap(void *a, size_t l);
 int __wrap_munmap(void *a, size_t l);
 int __wrap_munmap(void *a, size_t l) { w_call("munmap"); return __real_munmap(a, l); }
@@ -346,6 +357,7 @@ int __wrap_open(const char *p, int fl, ...)
 	w_call("open");
 	fd = __real_open(p, fl, m);
 	w_own(fd);
+	if (W_fs_hook) W_fs_hook("open");
 	return fd;
 }
 
